@@ -125,7 +125,7 @@ def baseline_task(args):
     isa = D.Isa(isa_name, mode)
     D.quiet()
     out = []
-    BATCH = 8       # children in flight (each one is its own fresh process; they share nothing)
+    BATCH = 24      # children in flight (each one is its own fresh process; they share nothing)
     for lo in range(0, len(inputs), BATCH):
         kids = []
         for hx in inputs[lo:lo + BATCH]:
